@@ -1508,7 +1508,7 @@ Section Helpers.
        | _ => True
        end) /\
     match hp with
-    | HTransformTop => match h_fn h with Some f => is_appended f = false | None => True end
+    | HTransformTop => okV (VRef l) \/ match h_fn h with Some f => is_appended f = false | None => True end
     | HUpdate a | HTransform a => dncname ct a = false \/ dflt_ok ct b A
     | _ => True
     end.
@@ -1726,7 +1726,8 @@ Section Helpers.
       intro E. destruct (Hinp E) as (Hl & _ & Hf). split; [exact Hl|exact Hf].
     - (* HTransformTop *)
       eapply sep_weaken; [apply Hrec; simpl; unfold mv_ok; simpl|simpl; intros r [Hr|[-> _]]; [left; exact Hr|right; reflexivity]].
-      split; [exact I|]. split; [intros _; right; split; [reflexivity|destruct (h_fn h); simpl; auto]|].
+      split; [exact I|].
+      split; [intros _; destruct Hform as [Hok|Hpl]; [left; exact Hok|right; split; [reflexivity|destruct (h_fn h); simpl; auto]]|].
       split; [exact I|]. split; [exact I|]. split; [destruct (h_fn h); simpl; auto|].
       split; [exact Hkwfn|]. intro E. destruct (Hinp E) as (Hl & _ & Hf). split; [exact Hl|exact I].
     - (* HResetTop *)
@@ -2237,3 +2238,76 @@ Section DncIdentity.
   Qed.
 End DncIdentity.
 
+
+(* ------------------------------------------------------------------ *)
+(** * Confinement of in-place operations
+    With every value allowed (A := everything) the judgement only confines
+    writes: an operation that mutates the receiver in place writes, among the
+    cells that existed before, only the receiver's own cell. *)
+Definition AllA : loc -> Prop := fun _ => True.
+
+Lemma okv_all b v : okv b AllA v.
+Proof. destruct v; simpl; auto. right; exact I. Qed.
+Lemma Forall_okv_all b xs : Forall (okv b AllA) xs.
+Proof. rewrite Forall_forall. intros; apply okv_all. Qed.
+Lemma fn_ok_all b f : fn_ok b AllA f.
+Proof. destruct f; simpl; auto using okv_all, Forall_okv_all. Qed.
+Lemma AllA_closed b W h0 : A_closed b AllA W h0.
+Proof. split; [intros; apply obj_ok_all; apply okv_all|intros; apply okv_all]. Qed.
+Lemma AllA_table ct b : table_ok ct b AllA.
+Proof.
+  intros k Hk. split; [|split].
+  - intros sp Hsp. split; [|split].
+    + destruct (a_prepare sp); simpl; auto using fn_ok_all.
+    + destruct (a_prepare_item sp); simpl; auto using fn_ok_all.
+    + destruct (a_factory sp) as [f|]; auto. destruct f; simpl; auto using Forall_okv_all.
+      rewrite Forall_forall. intros p _. split; apply okv_all.
+  - destruct (c_post_init k); simpl; auto using fn_ok_all.
+  - destruct (c_post_copy k); simpl; auto using fn_ok_all.
+Qed.
+Lemma AllA_dnc ct b h0 : dnc_allowed ct b AllA h0.
+Proof. intros l c d k a sp x _ _ _ _ _ _. apply okv_all. Qed.
+
+(* operations that write the receiver in place (attribute level) *)
+Definition inplace_attr_op (o : op) : Prop :=
+  match o with
+  | OpSetAttr _ _ _ | OpDelAttr _ _ => True
+  | OpHelper _ hp h =>
+      inplace_form hp /\
+      match hp with HUpdateTop => pos0 h = VMissing | _ => True end   (* no positional replacement value *)
+  | _ => False
+  end.
+Definition op_target (o : op) : nat :=
+  match o with OpSetAttr x _ _ | OpDelAttr x _ | OpHelper x _ _ | OpDeepCopy x => x | _ => 0 end.
+
+Section Confinement.
+  Variable ct : ctable.
+  Hypothesis no_dnc : forall c k, lookup_cls ct c = Some k -> c_dnc k = false.
+  Hypothesis wf_owner : forall c k, lookup_cls ct c = Some k -> c_owner k = c.
+
+  Theorem inplace_confined roots o s l :
+    inplace_attr_op o -> nth (op_target o) roots VNone = VRef l ->
+    forall l', l' < length (heap s) -> l' <> l ->
+      nth_error (heap (snd (step ct roots o s))) l' = nth_error (heap s) l'.
+  Proof.
+    intros Hop Hroot l' Hl' Hne.
+    set (h0 := heap s). set (b := length h0). set (W := fun x : loc => x = l).
+    assert (Hwl : wr b AllA W l) by (right; split; [reflexivity|exact I]).
+    assert (Hok : op_ok ct b AllA W roots o).
+    { destruct o; simpl in Hop, Hroot; try contradiction; simpl.
+      - rewrite Hroot. split; [exact Hwl|apply okv_all].
+      - rewrite Hroot. exact Hwl.
+      - destruct Hop as [Hf Hp]. split.
+        + split; [apply Forall_okv_all|]. split; [apply okv_all|].
+          split; [destruct (h_kw h); simpl; auto; unfold kw_okv; rewrite Forall_forall; intros; apply okv_all|].
+          split; [|destruct (h_fn h); simpl; auto using fn_ok_all].
+          split; [rewrite Forall_forall; intros; apply fn_ok_all|right; intros c0 k0 a0 _; apply okv_all].
+        + intros l0 E. rewrite Hroot in E. inversion E; subst l0. split.
+          * intros _. split; [exact Hwl|]. split; [exact Hf|].
+            destruct hp; auto; try (intros c0 k0 a0 _; apply okv_all). unfold pos0 in *. rewrite Hp. exact I.
+          * destruct hp; auto; try (left; apply okv_all); right; intros c0 k0 a0 _; apply okv_all. }
+    destruct (step_sep ct no_dnc wf_owner b AllA W h0 (AllA_closed b W h0) (AllA_table ct b) (AllA_dnc ct b h0)
+                roots o Hok s (sinv_start h0 AllA W s eq_refl)) as [(_ & Old & _) _].
+    destruct (Old l' Hl') as [Hw|He]; [contradiction|exact He].
+  Qed.
+End Confinement.
